@@ -496,7 +496,7 @@ class BoundedTransform(BaseTransform):
         """
         y = (x - self.lower) / self._denom
         log_j = self._scale_log_abs_det_jacobian * self.xp.ones(
-            y.shape[0], device=get_device(y)
+            y.shape[0], device=get_device(y), dtype=y.dtype
         )
         return y, log_j
 
@@ -515,7 +515,7 @@ class BoundedTransform(BaseTransform):
         """
         x = self._denom * y + self.lower
         log_j = -self._scale_log_abs_det_jacobian * self.xp.ones(
-            x.shape[0], device=get_device(x)
+            x.shape[0], device=get_device(x), dtype=x.dtype
         )
         return x, log_j
 
